@@ -25,7 +25,12 @@ Lemma saveglobals_forwards :
 Proof. reflexivity. Qed.
 
 Lemma saveglobals_one_write_per_binding :
-  saveglobals_writes = ["fmt.Fprintf(to ""%s\n"")"%string; "fmt.Fprintf(to ""%s=%s\n"")"%string].
+  saveglobals_writes =
+  ["writes outside the loop over the bindings = 0"%string;
+   "max writes on a path through one iteration = 1"%string;
+   "writes whose error is not checked and returned right away = 0"%string;
+   "writes not ending in a newline = 0"%string;
+   "other uses of the writer = 0"%string].
 Proof. reflexivity. Qed.
 
 (* the temporary file is created in the working directory, i.e. in the directory of the state file *)
